@@ -648,6 +648,27 @@ func (p *pkg) planFacts() {
 		if strings.Contains(t, "range selection.Directives") {
 			varsFrom = append(varsFrom, "directives")
 		}
+		// directives on fragment spreads and inline fragments (per case clause of the selection switch)
+		ast.Inspect(es.Body, func(n ast.Node) bool {
+			cc, ok := n.(*ast.CaseClause)
+			if !ok || len(cc.List) != 1 {
+				return true
+			}
+			body := ""
+			for _, st := range cc.Body {
+				body += p.norm(st)
+			}
+			if !strings.Contains(body, "addDirectiveVariables(config.step,selection.Directives)") {
+				return true
+			}
+			switch p.text(cc.List[0]) {
+			case "*ast.FragmentSpread":
+				varsFrom = append(varsFrom, "spreadDirectives")
+			case "*ast.InlineFragment":
+				varsFrom = append(varsFrom, "inlineDirectives")
+			}
+			return true
+		})
 	}
 	emit("def planVarsFrom : List String := %s", leanStrList(varsFrom))
 }
@@ -752,6 +773,24 @@ func (p *pkg) gatewayFacts() {
 		reqMw = strings.Contains(t, "nQueryer.WithMiddlewares(ctx.RequestMiddlewares)") && strings.Contains(t, "iflen(ctx.RequestMiddlewares)>0{")
 	}
 	emit("def requestMwEveryCall : Bool := %s", leanBool(reqMw))
+
+	// variables forwarded with a step: only the step's own set, client values unchanged, plus the join id
+	varsOK := false
+	if eo := p.funcs["executeOneStep"]; eo != nil {
+		t := p.norm(eo.Body)
+		varsOK = strings.Contains(t, "variables:=map[string]interface{}{}") &&
+			strings.Contains(t, "forvariable:=rangestep.Variables{ifvalue,ok:=queryVariables[variable];ok{variables[variable]=value}}") &&
+			strings.Contains(t, `variables["id"]=pointData.ID`) && strings.Contains(t, "Variables:variables,") &&
+			strings.Count(t, "variables[") == 2
+	}
+	emit("def execVarsOnlyStepSet : Bool := %s", leanBool(varsOK))
+	// the operation type of a step's query
+	opKind := false
+	if bq := p.funcs["plannerBuildQuery"]; bq != nil {
+		t := p.norm(bq.Body)
+		opKind = strings.Contains(t, "switchparentType{casetypeNameMutation:operation.Operation=ast.MutationcasetypeNameSubscription:operation.Operation=ast.Subscriptiondefault:operation.Operation=ast.Query}")
+	}
+	emit("def stepOperationKindFromParentType : Bool := %s", leanBool(opKind))
 
 	// fieldURLs: introspection stripped for services
 	stripOK := false
